@@ -1,32 +1,104 @@
 """C14 - handshake: mutual version gating, proven identity, same verdict on both sides.
 
-spec/handshake/Handshake.tla (the sync.Pool of handshake objects is part of the state).
-  1. exhaustive TLC: every configuration pair without faults; one session with every fault at every
-     point and every chunking; two sessions on the shared pool with every choice of pooled object;
-     the pre-repair release() (constant Resets) must still be refuted by TLC.
-  2. spec -> code: behaviours emitted by TLC (simulation over two overlapping sessions with faults,
-     the counterexamples of the pre-repair model, in the thorough tier every behaviour of a small
-     space) are executed step by step on real secureservice instances over a gated pipe, with the
-     pooled object chosen as the behaviour says; property oracles on the real observations.
-  3. code -> spec: random schedules beyond the model-checked bounds are logged (one event per spec
-     action + observed post-state incl. the contents of the pool object) and validated by
-     HandshakeTrace.tla, every invariant evaluated on every recorded state.
-  4. 64 free-running concurrent handshakes with distinct identities; consecutive connections on one
-     goroutine (object reuse without any control over sync.Pool)."""
+spec/handshake/Handshake.tla: both ends of the credential handshake, the frame channels with chunked delivery, an
+adversary, and the two pieces of state that outlive a connection: the sync.Pool of handshake objects (`pooled`,
+`resets`) and the long-lived credential checker (`verified`, `cmode`; the code keeps no state there, deviations
+"payload"/"peer" are what-if models).  spec/handshake/ProtoHandshake.tla: the proto negotiation on the same pool.
+
+  phase A (TLC, jobs run in parallel): exhaustive model checking + generation of behaviours
+      * every configuration pair without faults; one session x every fault at every point x every chunking
+        (coverage: every action taken; termination); two sessions on the shared pool, every pooled choice
+      * generation: counterexamples of the what-if models (release() forgets a field / the two it forgot before the
+        repair; the checker remembers verified payloads / peers) - each variant must yield some, i.e. TLC refutes it;
+        every tampered frame against every mode combination; simulated two-session behaviours with faults
+  phase B (one `go test`): every generated behaviour executed on real secureservice instances through the gated pipe
+      (pooled object and checker instance as the behaviour says); random schedules recorded; proto negotiation;
+      64 concurrent free-running handshakes; consecutive connections on one goroutine
+  phase C (TLC): the recorded runs validated by HandshakeTrace.tla, every property invariant on every recorded state
+"""
+import concurrent.futures
+import copy
+import json
 import os
 import re
 
 from vf import CheckBroken
 
 LEVEL = "model_checking"
-INVS = ("Agreement", "SuccessSound", "MutualGating", "ReplayRejected", "FaultNeverSuccess")
+AS_IS = ["ack", "ctype", "pay"]
 
 
+def broken(msg):
+    return CheckBroken(msg)
+
+
+# ---------------------------------------------------------------------------------------------- TLC jobs
+def run_jobs(ctx, jobs, threads):
+    """jobs: dicts {name, module, cfg, kind: 'mc'|'gen', workers, coverage, simulate, depth, timeout}.
+    Each job runs in its own scratch directory (lib/vf.py numbers TLC work directories per Ctx, so a shallow copy
+    of the context with another scratch directory is used per job); results are merged here, in the caller's thread."""
+    def one(j):
+        c = copy.copy(ctx)
+        c.scratch = os.path.join(ctx.scratch, "job-" + j["name"])
+        os.makedirs(c.scratch)
+        env = {}
+        if j["kind"] == "gen":
+            j["dir"] = os.path.join(ctx.scratch, "beh-" + j["name"])
+            os.makedirs(j["dir"])
+            env["VERIF_EMIT_DIR"] = j["dir"]
+        return c.tlc("handshake", j["module"], j["cfg"], workers=j.get("workers", 1), env=env,
+                     timeout=j.get("timeout", 1500), coverage=j.get("coverage", False), count=False,
+                     simulate=j.get("simulate"), depth=j.get("depth"), name=("generate " if j["kind"] == "gen" else "") + j["name"])
+
+    with concurrent.futures.ThreadPoolExecutor(max_workers=threads) as ex:
+        futs = [(j, ex.submit(one, j)) for j in jobs]
+        out = {}
+        for j, f in futs:
+            res = f.result()
+            out[j["name"]] = res
+            if res.timed_out:
+                raise broken("TLC timed out: %s" % j["name"])
+            expect = j.get("expect")  # names of invariants one of which must be violated (what-if models)
+            if expect:
+                if res.error != "invariant" or res.error_name not in expect:
+                    raise broken("the deviating model %s is no longer refuted (%s %s)\n%s" % (j["name"], res.error, res.error_name, res.out[-1500:]))
+                ctx.notes.append("%s refuted by TLC: %s after %d states" % (j["name"], res.error_name, res.generated))
+                continue
+            if not res.ok:
+                raise broken("MODEL-ERROR: TLC reported %s %s on the specification alone (%s)\n%s" % (
+                    res.error, res.error_name, j["name"], "\n".join(res.out.splitlines()[-60:])))
+            if j.get("coverage"):
+                unc = [a for a in res.uncovered_actions() if not a.startswith("Dev_")]
+                if unc:
+                    raise broken("vacuous model run %s, actions never taken: %s" % (j["name"], unc))
+            if j["kind"] == "mc":
+                ctx.cov["states"] += res.distinct
+                ctx.cov["transitions"] += res.generated
+            else:
+                n = len(os.listdir(j["dir"]))
+                if n == 0:
+                    raise broken("no behaviours emitted by %s\n%s" % (j["cfg"], res.out[-1500:]))
+                ctx.log("generated %d behaviours (%s)" % (n, j["name"]))
+        return out
+
+
+def variants_present(d, field, wanted, what):
+    """every what-if variant must have produced at least one counterexample (= TLC refutes that variant)"""
+    seen = set()
+    for fn in os.listdir(d):
+        v = json.load(open(os.path.join(d, fn))).get(field)
+        seen.add(json.dumps(sorted(v) if isinstance(v, list) else v))
+    missing = [w for w in wanted if json.dumps(w) not in seen]
+    if missing:
+        raise broken("%s: the model no longer refutes the variant(s) %s - the specification lost that piece of state" % (what, missing))
+
+
+# ---------------------------------------------------------------------------------------------- trace validation
 def validate_trace(ctx, trace, label):
     tv = ctx.tlc("handshake", "HandshakeTrace", "HandshakeTrace.cfg", workers=1, env={"VERIF_TRACE": trace},
                  timeout=1500, count=False, name="trace-validation " + label)
     if tv.timed_out:
-        raise CheckBroken("trace validation timed out")
+        raise broken("trace validation timed out")
     m = re.search(r"TRACE-DRIFT\", (\d+)", tv.out)
     if m:
         ctx.cov["drift"] += int(m.group(1))
@@ -39,7 +111,6 @@ def validate_trace(ctx, trace, label):
         lines = open(trace).read().splitlines()
         start = max(i for i in range(min(line, len(lines))) if '"ev":"Config"' in lines[i]) if line > 0 else 0
         # the recorded run as a behaviour that --replay executes again on the real code
-        import json
         evs = [json.loads(x) for x in lines[start:line]]
         steps = []
         for ev in evs[1:]:
@@ -51,21 +122,42 @@ def validate_trace(ctx, trace, label):
                       "a recorded run of the real handshake violates %s of Handshake.tla (trace line %d)" % (tv.error_name, line),
                       {"sess": evs[0]["sess"], "seed": evs[0].get("seed", 0), "steps": steps, "origin": "recorded run",
                        "trace_events": lines[start:line]})
-        return
+        return tv
     if tv.ok:
-        return
+        return tv
     if "TRACE-REJECTED-AT-LINE" in tv.out:
         m = re.search(r"TRACE-REJECTED-AT-LINE\", (\d+)", tv.out)
-        raise CheckBroken("recorded trace is neither explained nor adopted by HandshakeTrace at line %s\n%s" % (
+        raise broken("recorded trace is neither explained nor adopted by HandshakeTrace at line %s\n%s" % (
             m.group(1) if m else "?", tv.out[-2500:]))
-    raise CheckBroken("trace validation failed to run:\n" + tv.out[-3000:])
+    raise broken("trace validation failed to run:\n" + tv.out[-3000:])
 
 
+def selftest(ctx, trace):
+    """binding self-test: a corrupted recording must not be accepted silently"""
+    lines = open(trace).read().splitlines()
+    for i, ln in enumerate(lines):
+        ev = json.loads(ln)
+        if ev.get("ev") == "Recv" and ev.get("post", {}).get("verdict") == "ok" and ev["post"]["res"]["ver"] == 1:
+            ev["post"]["res"]["ver"] = 2
+            lines[i] = json.dumps(ev)
+            break
+    else:
+        raise broken("self-test: no successful Recv event to corrupt")
+    p = os.path.join(ctx.scratch, "hs-trace-corrupt.ndjson")
+    open(p, "w").write("\n".join(lines) + "\n")
+    tv = ctx.tlc("handshake", "HandshakeTrace", "HandshakeTrace.cfg", workers=1, env={"VERIF_TRACE": p}, timeout=1500,
+                 count=False, name="binding self-test (corrupted recording)")
+    m = re.search(r"TRACE-DRIFT\", (\d+)", tv.out)
+    if tv.error != "invariant" and not (m and int(m.group(1)) > 0):
+        raise broken("binding self-test: a recording with a falsified context version was accepted")
+    ctx.notes.append("binding self-test: falsified recording rejected (%s)" % (tv.error_name or "resync"))
+
+
+# ---------------------------------------------------------------------------------------------- Go harness
 def guard_go_test(ctx):
     """A panic in the handshake's own worker goroutine cannot be recovered by the harness: the test binary dies
     without a report. If the dying goroutine is inside net/secureservice, that is the code under test failing on
     the input named by the breadcrumb file -> violation; anything else stays a broken check."""
-    import json
     orig = ctx.go_test
     crumb = os.path.join(ctx.scratch, "crumb.json")
 
@@ -97,7 +189,6 @@ def run(ctx):
     thorough = ctx.tier == "thorough"
     guard_go_test(ctx)
     if ctx.replay:
-        import json
         obj = json.load(open(ctx.replay)).get("replay") or {}
         test = obj.get("test") if isinstance(obj, dict) else None
         if isinstance(obj, dict) and obj.get("kind") == "proto":
@@ -110,87 +201,92 @@ def run(ctx):
         else:
             ctx.go_test("./handshake", run="TestReplay$")
         return
-    w = min(ctx.cores, 8)
-    if os.environ.get("VERIF_C14_BINDING_ONLY"):   # development aid (mutant runs): skip the exhaustive TLC part
-        return binding(ctx, thorough)
-    # ---- 1. the design, exhaustively
-    ctx.tlc_expect_ok("handshake", "HandshakeMC", "Handshake_mc_faults.cfg", coverage=True, workers=w, timeout=1500)
-    ctx.tlc_expect_ok("handshake", "HandshakeMC", "Handshake_mc_cfgs.cfg", workers=w, timeout=1500)
-    ctx.tlc_expect_ok("handshake", "HandshakeMC", "Handshake_mc_pool.cfg", workers=w, timeout=1500)
-    ctx.tlc_expect_ok("handshake", "ProtoMC", "Proto_mc1.cfg", coverage=True, workers=w, timeout=1500)
-    if thorough:
-        ctx.tlc_expect_ok("handshake", "ProtoMC", "Proto_mc.cfg", workers=w, timeout=3000)
-        ctx.tlc_expect_ok("handshake", "HandshakeMC", "Handshake_mc_faults2.cfg", workers=w, timeout=3000)
-        ctx.tlc_expect_ok("handshake", "HandshakeMC", "Handshake_mc_poolc.cfg", workers=w, timeout=3000)
-    # the deviation "release() keeps version / client version" must still be refuted by the model
-    asis = ctx.tlc("handshake", "HandshakeMC", "Handshake_mc_asis.cfg", workers=w, timeout=900, count=False,
-                   name="pre-repair release() (expected: refuted)")
-    if asis.error != "invariant" or asis.error_name not in ("SuccessSound", "MutualGating"):
-        raise CheckBroken("the model of the pre-repair release() is no longer refuted (%s %s): the specification lost the "
-                          "pool residue\n%s" % (asis.error, asis.error_name, asis.out[-1500:]))
-    ctx.notes.append("pre-repair release() refuted by TLC: %s after %d states" % (asis.error_name, asis.generated))
 
-    binding(ctx, thorough)
+    binding_only = bool(os.environ.get("VERIF_C14_BINDING_ONLY"))  # development aid (mutant runs): no exhaustive part
+    cores = ctx.cores
+    mcw = 4 if cores >= 8 else 2
+    sim_n, sim2_n = (1500, 1500) if thorough else (60, 40)
 
-
-def binding(ctx, thorough):
-    # ---- 2. spec -> code
-    def gen(cfg, name, simulate=None, depth=None, timeout=1500, module="HandshakeGen"):
-        d = os.path.join(ctx.scratch, name)
-        os.makedirs(d)
-        res = ctx.tlc("handshake", module, cfg, workers=1, env={"VERIF_EMIT_DIR": d}, timeout=timeout,
-                      count=False, simulate=simulate, depth=depth, name="generate " + name)
-        if res.timed_out or (res.error and not simulate) or (simulate and res.error not in (None,)):
-            raise CheckBroken("behaviour generation %s failed: %s %s\n%s" % (name, res.error, res.error_name, res.out[-2000:]))
-        n = len(os.listdir(d))
-        if n == 0:
-            raise CheckBroken("no behaviours emitted by %s\n%s" % (cfg, res.out[-1500:]))
-        ctx.log("generated %d behaviours (%s)" % (n, name))
+    def mc(name, module, cfg, **kw):
+        d = {"name": name, "module": module, "cfg": cfg, "kind": "mc", "workers": mcw}
+        d.update(kw)
         return d
 
-    d = gen("HandshakeGen_asis.cfg", "prerepair")
-    ctx.go_test("./handshake", run="TestReplay$", name="replay pre-repair counterexamples",
-                env={"VERIF_BEHAVIOURS": d, "VERIF_MODE": "probe"}, timeout=1500)
-    # what the model says could be exploited if release() forgot any one field
-    d = gen("HandshakeGen_residue.cfg", "residue")
-    ctx.go_test("./handshake", run="TestReplay$", name="replay forgotten-reset counterexamples",
-                env={"VERIF_BEHAVIOURS": d, "VERIF_MODE": "probe"}, timeout=3000)
-    d = gen("HandshakeGen_rep.cfg", "tamper")
-    ctx.go_test("./handshake", run="TestReplay$", name="replay every tampered frame (replayed, stripped, forged, malformed)",
-                env={"VERIF_BEHAVIOURS": d, "VERIF_DEDUP": "" if thorough else "1"}, timeout=3000)
-    d = gen("HandshakeGen_sim.cfg", "sim", simulate=1500 if thorough else 150, depth=60)
-    ctx.go_test("./handshake", run="TestReplay$", name="replay simulated (overlapping sessions, 1 fault)",
-                env={"VERIF_BEHAVIOURS": d}, timeout=1500)
-    d = gen("HandshakeGen_sim2.cfg", "sim2", simulate=1500 if thorough else 100, depth=60)
-    ctx.go_test("./handshake", run="TestReplay$", name="replay simulated (consecutive sessions, 2 faults)",
-                env={"VERIF_BEHAVIOURS": d}, timeout=1500)
-    if thorough:
-        d = gen("HandshakeGen_all.cfg", "all", timeout=3000)
-        ctx.go_test("./handshake", run="TestReplay$", name="replay every fault at every point (1 session, 1 fault, interleavings deduplicated)",
-                    env={"VERIF_BEHAVIOURS": d, "VERIF_DEDUP": "1"}, timeout=3000)
+    def gen(name, cfg, module="HandshakeGen", **kw):
+        d = {"name": name, "module": module, "cfg": cfg, "kind": "gen", "workers": 1}
+        d.update(kw)
+        return d
 
-    # ---- 3. code -> spec
+    jobs = []
+    if not binding_only:
+        # ---- the design, exhaustively (largest first)
+        if thorough:
+            jobs += [mc("2 faults", "HandshakeMC", "Handshake_mc_faults2.cfg", timeout=3000),
+                     mc("proto, overlapping", "ProtoMC", "Proto_mc.cfg", timeout=3000),
+                     mc("pool, overlapping", "HandshakeMC", "Handshake_mc_poolc.cfg", timeout=3000),
+                     mc("pool", "HandshakeMC", "Handshake_mc_pool.cfg", timeout=3000),
+                     mc("all configurations", "HandshakeMC", "Handshake_mc_cfgs.cfg", timeout=3000),
+                     mc("pre-repair release()", "HandshakeMC", "Handshake_mc_asis.cfg", expect=("SuccessSound", "MutualGating")),
+                     mc("checker with memory", "HandshakeMC", "Handshake_mc_cache.cfg", expect=("ReplayRejected", "SuccessSound"))]
+        else:
+            jobs += [mc("pool", "HandshakeMC", "Handshake_mc_pool_q.cfg"),
+                     mc("all configurations", "HandshakeMC", "Handshake_mc_cfgs_q.cfg")]
+        jobs += [mc("1 fault, every chunking", "HandshakeMC", "Handshake_mc_faults.cfg", coverage=True),
+                 mc("proto, 1 fault", "ProtoMC", "Proto_mc1.cfg", coverage=True)]
+    # ---- generation
+    jobs += [gen("residue", "HandshakeGen_residue_t.cfg" if thorough else "HandshakeGen_residue.cfg", timeout=3000),
+             gen("checker-memory", "HandshakeGen_cache.cfg"),
+             gen("tamper", "HandshakeGen_rep.cfg"),
+             gen("sim", "HandshakeGen_sim.cfg", simulate=sim_n, depth=60),
+             gen("sim2", "HandshakeGen_sim2.cfg", simulate=sim2_n, depth=60),
+             gen("proto-residue", "ProtoGen_residue.cfg", module="ProtoMC"),
+             gen("proto-all", "ProtoGen_all.cfg", module="ProtoMC")]
+    if thorough:
+        jobs.append(gen("all", "HandshakeGen_all.cfg", timeout=3000))
+    run_jobs(ctx, jobs, threads=max(2, min(6, cores // 2)))
+    byname = {j["name"]: j for j in jobs}
+    # every what-if variant must have produced counterexamples (TLC refutes each of them)
+    variants_present(byname["residue"]["dir"], "resets",
+                     [AS_IS] + [sorted(set(["ack", "ctype", "pay", "ver", "cver"]) - {f}) for f in ("ack", "ctype", "pay", "ver", "cver")],
+                     "forgotten resets")
+    variants_present(byname["checker-memory"]["dir"], "cmode", ["payload", "peer"], "checker memory")
+    # (of the proto variants only "encodings not cleared" is exploitable without a fault)
+    variants_present(byname["proto-residue"]["dir"], "resets", [["ack", "pt"]], "forgotten proto resets")
+
+    # ---- the binding: one process
     trace = os.path.join(ctx.scratch, "hs-trace.ndjson")
-    rep = ctx.go_test("./handshake", run="TestRandom$", env={"VERIF_TRACE_OUT": trace, "VERIF_RUNS": 1200 if thorough else 120},
-                      timeout=1500)
-    ctx.cov["trace_events_validated"] = rep["extra"].get("trace_events", 0)
+
+    def replay(name, mode="conform", test="TestReplay", **env):
+        e = {"VERIF_NAME": name, "VERIF_BEHAVIOURS": byname[name]["dir"], "VERIF_MODE": mode}
+        e.update({k: str(v) for k, v in env.items()})
+        return {"test": test, "env": e}
+
+    plan = [replay("residue", "probe"),
+            replay("checker-memory", "probe"),
+            replay("tamper", VERIF_DEDUP="" if thorough else "1"),
+            replay("sim"), replay("sim2")]
+    if thorough:
+        plan.append(replay("all", VERIF_DEDUP="1"))
+    plan += [{"test": "TestRandom", "env": {"VERIF_TRACE_OUT": trace, "VERIF_RUNS": str(1200 if thorough else 80)}},
+             replay("proto-residue", "probe", test="TestProtoReplay"),
+             replay("proto-all", test="TestProtoReplay", VERIF_SAMPLE=0 if thorough else 500),
+             {"test": "TestProtoReuse", "env": {"VERIF_ATTEMPTS": str(40 if thorough else 6)}},
+             {"test": "TestConcurrent", "env": {"VERIF_ROUNDS": str(40 if thorough else 4)}},
+             {"test": "TestReuse", "env": {"VERIF_ATTEMPTS": str(40 if thorough else 5)}}]
+    planf = os.path.join(ctx.scratch, "plan.json")
+    json.dump(plan, open(planf, "w"))
+    rep = ctx.go_test("./handshake", run="TestAll$", env={"VERIF_PLAN": planf}, timeout=3000, name="binding (TestAll)")
+    for k, v in (rep.get("extra") or {}).items():
+        if k.startswith("part:"):
+            ctx.log("  %-44s %6d cases %7.1fs" % (k[5:], v.get("cases", 0), v.get("seconds", 0)))
+    ctx.cov["trace_events_validated"] = (rep.get("extra") or {}).get("trace_events", 0)
+
+    # ---- recorded runs against the specification
     if os.path.exists(trace) and os.path.getsize(trace) > 0 and rep.get("cases"):
         validate_trace(ctx, trace, "random runs")
         if thorough:
             selftest(ctx, trace)
 
-    # ---- 3b. the proto negotiation (same pool): ProtoHandshake.tla
-    d = gen("ProtoGen_residue.cfg", "proto-residue", module="ProtoMC")
-    ctx.go_test("./handshake", run="TestProtoReplay$", name="replay forgotten-reset counterexamples (proto negotiation)",
-                env={"VERIF_BEHAVIOURS": d, "VERIF_MODE": "probe"}, timeout=1500)
-    d = gen("ProtoGen_all.cfg", "proto-all", module="ProtoMC")
-    ctx.go_test("./handshake", run="TestProtoReplay$", name="replay every behaviour of one proto negotiation (1 fault)",
-                env={"VERIF_BEHAVIOURS": d}, timeout=1500)
-    ctx.go_test("./handshake", run="TestProtoReuse$", env={"VERIF_ATTEMPTS": 40 if thorough else 10}, timeout=1500)
-
-    # ---- 4. free-running workers on the shared pool
-    ctx.go_test("./handshake", run="TestConcurrent$", env={"VERIF_ROUNDS": 40 if thorough else 6}, timeout=1500)
-    ctx.go_test("./handshake", run="TestReuse$", env={"VERIF_ATTEMPTS": 40 if thorough else 8}, timeout=1500)
     if thorough:
         rr = ctx.go_test("./handshake", run="TestConcurrent$", env={"VERIF_ROUNDS": 10}, race=True, timeout=1500,
                          name="./handshake TestConcurrent$ -race", count_cases=False)
@@ -202,29 +298,8 @@ def binding(ctx, thorough):
                 ctx.violation("data-race:handshake", "the race detector reports concurrent access inside the handshake code "
                               "while 64 handshakes run on the shared pool", {"test": "TestConcurrent", "seed": ctx.seed, "race": blk[:3000]})
             else:
-                raise CheckBroken("data race outside the code under test (harness?):\n" + blk[:3000])
-    ctx.assume("signatures are unforgeable: the adversary only uses signatures it made itself or recorded on another connection")
-    ctx.assume("the byte stream is the harness pipe (TCP-like): data written before a close stays readable, a write to a peer that already closed succeeds, a write fails once the own end is closed or the transport is cut")
+                raise broken("data race outside the code under test (harness?):\n" + blk[:3000])
+    ctx.assume("signatures are unforgeable: the adversary only uses signatures it made itself or observed on some connection")
+    ctx.assume("the byte stream is the harness pipe (TCP-like): data written before a close stays readable, a write to a peer that "
+               "already closed succeeds, a write fails once the own end is closed or the transport is cut")
     ctx.assume("the remote peer id handed to the handshake is the authenticated transport peer id (TLS layer not modelled)")
-
-
-def selftest(ctx, trace):
-    """binding self-test: a corrupted recording must not be accepted silently"""
-    import json
-    lines = open(trace).read().splitlines()
-    for i, ln in enumerate(lines):
-        ev = json.loads(ln)
-        if ev.get("ev") == "Recv" and ev.get("post", {}).get("verdict") == "ok" and ev["post"]["res"]["ver"] == 1:
-            ev["post"]["res"]["ver"] = 2
-            lines[i] = json.dumps(ev)
-            break
-    else:
-        raise CheckBroken("self-test: no successful Recv event to corrupt")
-    p = os.path.join(ctx.scratch, "hs-trace-corrupt.ndjson")
-    open(p, "w").write("\n".join(lines) + "\n")
-    tv = ctx.tlc("handshake", "HandshakeTrace", "HandshakeTrace.cfg", workers=1, env={"VERIF_TRACE": p}, timeout=1500,
-                 count=False, name="binding self-test (corrupted recording)")
-    m = re.search(r"TRACE-DRIFT\", (\d+)", tv.out)
-    if tv.error != "invariant" and not (m and int(m.group(1)) > 0):
-        raise CheckBroken("binding self-test: a recording with a falsified context version was accepted")
-    ctx.notes.append("binding self-test: falsified recording rejected (%s)" % (tv.error_name or "resync"))
